@@ -121,8 +121,9 @@ def concretise(R, s, legal):
                 h["ev"] += [{"op": "input", "data": kb("d", 7)}, {"op": "result"}]
             tm = "TraceMac"
     elif e in ("blake2_out", "blake2_rekey"):
-        alg = "blake2b" if v == "b" else "blake2s"
-        h = {"cls": "hash", "alg": alg, "api": "dyn", "outlen": a if e == "blake2_out" else 32, "key": [], "ev": [{"op": "new"}, {"op": "update_mut", "x": 1, "data": kb("d", 5)}]}
+        alg = "blake2b" if v in ("b", "bc") else "blake2s"
+        h = {"cls": "hash", "alg": alg, "api": "const" if v in ("bc", "sc") else "dyn", "outlen": a if e == "blake2_out" else 32, "key": [],
+             "ev": [{"op": "new"}, {"op": "update_mut", "x": 1, "data": kb("d", 5)}]}
         if e == "blake2_rekey":
             h["ev"] += [{"op": "reset_with_key", "x": 1, "key": kb("key", c), "api": api}, {"op": "update_mut", "x": 1, "data": kb("d3", 4)}, {"op": "finalize", "x": 1}]
         elif d == 1:
@@ -186,6 +187,9 @@ def concretise(R, s, legal):
         w = 1 if v == "u8" else 8
         h = {"cls": "ct", "ev": [{"fn": "sl8" if v == "u8" else "sl64", "f": "ct_eq", "a": kb("sa", a * w), "b": (kb("sa", a * w) + kb("sb", b * w))[:b * w], "api": api}]}
         tm = "TraceCT" if legal else None
+    elif e == "mac_cmp":
+        h = {"cls": "ct", "ev": [{"fn": "mac", "f": v, "a": kb("sa", a), "b": (kb("sa", a) + kb("sb", b))[:b], "api": api}]}
+        tm = "TraceCT"
     elif e == "x25519_try_from":
         h = {"cls": "fn", "ev": [{"op": "x25519_try_from", "kind": v, "bytes": kb("x", a), "api": api}]}
         tm = "TraceCurve"
